@@ -480,11 +480,18 @@ def anchoredFindAt (input : Bytes) (info : AnchoredLiteralInfo) (at_ : Nat) : Op
   if at_ > 0 then none else anchoredFind input info
 
 /-! ## §4 ExtractFirstBytes (nfa/firstbytes.go, after "the first-byte rejection filter must account for case folding
-    and multi-byte runes")
+    and multi-byte runes" and "an assertion in first position must not make the first-byte set look complete")
 
   * `bytes [256]bool` is a `Table`; `count`, `complete` as in Go.  `complete` starts `true` and is only ever cleared
     immediately before a `return false` (`*`, `?`, `{0,…}`), and every `false` propagates to the top (→ `nil`), so a
     non-nil result always has `complete = true` (`firstBytes_complete` in Cx.Proofs.Fast).
+  * a bare assertion (`OpBeginLine`, `OpBeginText`, `OpEndLine`, `OpEndText`) now answers `false` (it used to answer
+    `true` without adding a byte); `OpWordBoundary`, `OpNoWordBoundary`, `OpEmptyMatch`, `OpNoMatch` have no case and fall
+    to `default: return false`, as before.  `OpConcat` skips every leading element for which `isAssertionOnly` holds
+    (`^`, `$`, `\A`, `\z`, alone or inside capture groups, `+`, nested concatenations: `(^)a`, `(?:^)+a`, `(?:^$)a`;
+    NOT `\b`, `\B`, the empty regexp, `(?:^)*`, `(?:^){2}`, `^|$`) and recurses into the first other element; a
+    concatenation of assertion-only elements answers `false`.  `isAssertionOnly` recurses over the AST without a depth
+    bound (so does the Go function); `extractFirstBytesRecursive` keeps its bound `maxFirstBytesDepth`.
   * `unicode.SimpleFold` is not transliterated: the loop
         `orbit := []rune{r}; for f := unicode.SimpleFold(r); f != r; f = unicode.SimpleFold(f) { orbit = append(orbit, f) }`
     is the parameter `foldOrbit : Nat → List Nat` = the runes appended by that loop (the OTHER members of the
@@ -541,6 +548,28 @@ def altLoop (rec : Re → FirstByteSet → Bool × FirstByteSet) : List Re → F
     | (false, res) => (false, res)
     | (true, res) => altLoop rec xs res
 
+mutual
+/-- `isAssertionOnly(re)`: the anchors `^`, `$`, `\A`, `\z` alone, possibly grouped (`OpCapture`), repeated at least once
+    (`OpPlus`) or concatenated (a non-empty `OpConcat` of such).  Recursion on the AST, as in Go (no depth bound). -/
+def isAssertionOnly : Re → Bool
+  | .mk op _ _ sub _ _ _ =>
+    match op with
+    | .beginLine | .beginText | .endLine | .endText => true
+    | .capture | .plus =>
+      -- `len(re.Sub) == 1 && isAssertionOnly(re.Sub[0])`
+      match sub with
+      | [x] => isAssertionOnly x
+      | _ => false
+    | .concat =>
+      -- `for _, sub := range re.Sub { if !isAssertionOnly(sub) { return false } }; return len(re.Sub) > 0`
+      allAssertionOnly sub && !sub.isEmpty
+    | _ => false
+/-- the loop of the `OpConcat` case of `isAssertionOnly` -/
+def allAssertionOnly : List Re → Bool
+  | [] => true
+  | x :: xs => isAssertionOnly x && allAssertionOnly xs
+end
+
 /-- `extractFirstBytesRecursive(re, result, depth)` with fuel `maxFirstBytesDepth + 1 - depth` (so fuel `0` is
     `depth > maxFirstBytesDepth`). Returns the Go `bool` and the mutated `*result`. -/
 def extractFirstBytesRec (foldOrbit : Nat → List Nat) : Nat → Re → FirstByteSet → Bool × FirstByteSet
@@ -558,14 +587,14 @@ def extractFirstBytesRec (foldOrbit : Nat → List Nat) : Nat → Re → FirstBy
       (decide (res.count > 0), res)
     | .anyCharNotNL => (true, ((List.range 256).filter (· ≠ 10)).foldl FirstByteSet.addNew res)
     | .anyChar => (true, (List.range 256).foldl FirstByteSet.addNew res)
-    | .beginLine | .beginText | .endLine | .endText => (true, res)
+    | .beginLine | .beginText | .endLine | .endText => (false, res)
     | .capture =>
       match re.sub with
       | [x] => extractFirstBytesRec foldOrbit fuel x res
       | _ => (false, res)
     | .concat =>
-      -- first sub that is not a begin anchor
-      match re.sub.find? (fun s => !(decide (s.op = .beginLine) || decide (s.op = .beginText))) with
+      -- `for _, sub := range re.Sub { if isAssertionOnly(sub) { continue }; return rec(sub) }; return false`
+      match re.sub.find? (fun s => !isAssertionOnly s) with
       | some x => extractFirstBytesRec foldOrbit fuel x res
       | none => (false, res)
     | .alternate =>
